@@ -134,12 +134,13 @@ struct Run<'a> {
     avail: usize,
     iter_mode: bool,
     dead: bool,
+    viol: String,
 }
 
 impl<'a> Run<'a> {
     fn new(f: &'a TestFile, kind: Kind, seekable: bool) -> Option<Self> {
         match Drv::open(kind, &f.bytes, Chunking::Whole, seekable) {
-            Ok(drv) => Some(Run { f, kind, drv, rc: RefCursor::new(f, kind, seekable), ops: vec![], obs: vec![], avail: 0, iter_mode: false, dead: false }),
+            Ok(drv) => Some(Run { f, kind, drv, rc: RefCursor::new(f, kind, seekable), ops: vec![], obs: vec![], avail: 0, iter_mode: false, dead: false, viol: String::new() }),
             Err(e) => {
                 note(&format!("cannot open {} on file {}: {}", kind.tag(), f.id, e));
                 None
@@ -174,6 +175,7 @@ impl<'a> Run<'a> {
         if let Some(v) = self.rc.step(&op, &obs, avail_before) {
             emit_viol(self.f, self.kind, seekable, "whole", &self.ops, &self.obs, self.ops.len() - 1, &v);
             *viols += 1;
+            self.viol = v.key.clone();
             self.dead = true;
             return false;
         }
@@ -322,7 +324,7 @@ fn main() {
                     }
                     bump(&format!("histories.boundary.{}", kind.tag()), 1);
                     bump("ops", run.ops.len() as u64);
-                    emit_case(f, kind, true, "whole", &run.ops, &run.obs, "boundary");
+                    emit_case(f, kind, true, "whole", &run.ops, &run.obs, "boundary", &run.viol);
                 }
             }
             // ---- extreme targets from assorted states
@@ -343,7 +345,7 @@ fn main() {
                 run.go(op, &mut viols, true);
                 bump(&format!("histories.extreme.{}", kind.tag()), 1);
                 bump("ops", run.ops.len() as u64);
-                emit_case(f, kind, true, "whole", &run.ops, &run.obs, "extreme");
+                emit_case(f, kind, true, "whole", &run.ops, &run.obs, "extreme", &run.viol);
             }
             // ---- random histories
             let nrand = if thorough { 40 } else { 8 };
@@ -371,7 +373,7 @@ fn main() {
                     bump("histories.not-seekable", 1);
                 }
                 bump("ops", run.ops.len() as u64);
-                emit_case(f, kind, seekable, "whole", &run.ops, &run.obs, "random");
+                emit_case(f, kind, seekable, "whole", &run.ops, &run.obs, "random", &run.viol);
             }
         }
     }
